@@ -1053,7 +1053,7 @@ done:
 }
 
 inline std::string clean(std::string t);
-#if OVL_TSAN
+#if OVL_TSAN || defined(OVL_NOOMP)
 } // namespace ovl
 // the ThreadSanitizer build is compiled without OpenMP (libgomp's barriers are invisible to it): a library that calls the omp_*
 // query functions outside a pragma still has to link -- outside a parallel region they answer for a team of one
@@ -1069,6 +1069,8 @@ __attribute__((weak)) void omp_set_dynamic(int) {}
 }
 namespace ovl
 {
+#endif
+#if OVL_TSAN
 // ---------------------------------------------------------------- re-entrancy (ThreadSanitizer build)
 // Every overload is executed by T threads at the same time, each thread on its own private heap blocks (tag pass, stride 5 /
 // scattered indices).  (a) every thread's result must equal the sequential oracle; (b) the library code is instrumented
